@@ -169,8 +169,6 @@ def attribute(call: dict, mism: list[str]) -> str | None:
     text = " | ".join(mism)
     if (f["scalar_date"] or f["array_of_date"]) and ("raw str" in text or "returned as" in text or "list[str]" in text):
         return "F32a"
-    if f["text_plain"] and ("JSONDecodeError" in text or "Expecting value" in text or "expected text" in text):
-        return "F32b"
     if "name 'structure_from_dict' is not defined" in text and not call["primary"]:
         return "F41"
     if "ForwardRef(" in text or (f.get("doc_self_ref") and ("Cannot structure" in text or "Could not structure" in text)):
